@@ -98,6 +98,8 @@ pub struct Case {
     /// `Clone::clone` of an element is a scheduling point of its own
     pub clonepoint: bool,
     pub rawskip: bool,
+    /// `nested`: kind iter: the iterator under test wraps `values()` of an inner concurrent iterator over the probe
+    pub nested: bool,
     /// `reenter k`: the k-th call of the wrapped iterator's `next()` queries the concurrent iterator around it
     pub reenter: Option<usize>,
     pub reenter_skip: bool,
@@ -406,6 +408,7 @@ struct Partial {
     inpanic: Vec<usize>,
     clonepoint: bool,
     rawskip: bool,
+    nested: bool,
     reenter: Option<usize>,
     reenter_skip: bool,
     zstiter: bool,
@@ -470,6 +473,7 @@ fn finish(p: Partial) -> Result<Case, String> {
         inpanic: p.inpanic,
         clonepoint: p.clonepoint,
         rawskip: p.rawskip,
+        nested: p.nested,
         reenter: p.reenter,
         reenter_skip: p.reenter_skip,
         zstiter: p.zstiter,
@@ -558,6 +562,9 @@ pub fn parse_cases(text: &str) -> Result<Vec<Case>, String> {
             }
             "rawskip" => {
                 p.rawskip = true;
+            }
+            "nested" => {
+                p.nested = true;
             }
             "reenter" => {
                 let k = toks
